@@ -141,9 +141,33 @@ def _stretch(rng, n, sp, positive, off=None):
     return off, _plain_series(rng, m, positive)
 
 
+def _gaps(rng, m, sp):
+    """relative time offsets 0 = r0 < r1 < ... of a GAPPED stretch of m >= 2 observations (at least
+    one step > 1; steps that are / are not multiples of sp both occur)"""
+    while True:
+        steps = [rng.choice([1, 1, 2, 3, sp - 1 or 1, sp, sp + 1, 2 * sp + 1]) for _ in range(m - 1)]
+        if any(st > 1 for st in steps):
+            break
+    rel = [0]
+    for st in steps:
+        rel.append(rel[-1] + st)
+    return rel
+
+
+def _with_gaps(rng, case, sp):
+    """turn the transformed stretch of `case` into a gapped one (integer / period / datetime index
+    built from explicit time points; a RangeIndex cannot have gaps)"""
+    if len(case["z"]) < 2:
+        case["z"] = case["z"] + [case["z"][0] + 0.5]
+    case["rel"] = _gaps(rng, len(case["z"]), sp)
+    if case["idx"] == "range":
+        case["idx"] = "int"
+    return case
+
+
 def _common(rng, kind, cfg, y, off, z, ups=(), pre=False, k=None):
     t0 = rng.choice([0, 0, 1, 3, 5, 7, 12, 29, 60, -4, -20])
-    return {"kind": kind, "cfg": cfg, "t0": t0,
+    return {"kind": kind, "cfg": cfg, "t0": t0, "rel": None,
             # DatetimeIndex only where this environment can run it (pandas 2 dropped Timestamp.freq,
             # which the trend forecaster needs): the deseasonalizers
             # (the trend forecaster behind Detrender / Imputer("drift") is run on integer indices
@@ -189,6 +213,16 @@ def _gen_deseason(rng, cases, reps):
                         rng.choice([0, 1, 2])
                     cases.append(_common(rng, "deseason", {"sp": sp, "model": model}, y, off2, z,
                                          _des_ups(rng, n, sp, how), pre=rng.random() < 0.3))
+            # gapped stretches (e.g. the prediction index of a gapped forecasting horizon), starting
+            # before / inside / after the training series, with and without updates in between
+            for g in range(4 if reps <= 3 else 12):
+                n = 2 * sp + rng.randint(0, sp + 2)
+                y = _seasonal_series(rng, n, sp, True)
+                off2, z = _stretch(rng, n, sp, True)
+                c = _common(rng, "deseason", {"sp": sp, "model": model}, y, off2, z,
+                            _des_ups(rng, n, sp, rng.choice([0, 1, 2]) if g else 0),
+                            pre=rng.random() < 0.3)
+                cases.append(_with_gaps(rng, c, sp))
             for extra in (0, rng.randint(1, sp - 1), rng.randint(sp, 2 * sp)):
                 n = 2 * sp + extra
                 y = _seasonal_series(rng, n, sp, True)
@@ -204,8 +238,9 @@ def _gen_cond(rng, cases, count):
         y = (_seasonal_series(rng, n, sp, True) if rng.random() < 0.7
              else _plain_series(rng, n, True))
         off, z = _stretch(rng, n, sp, True)
-        cases.append(_common(rng, "cond", {"sp": sp, "model": model, "test": test}, y, off, z,
-                             _des_ups(rng, n, sp, rng.choice([0, 1, 2]))))
+        c = _common(rng, "cond", {"sp": sp, "model": model, "test": test}, y, off, z,
+                    _des_ups(rng, n, sp, rng.choice([0, 1, 2])))
+        cases.append(_with_gaps(rng, c, sp) if rng.random() < 0.3 else c)
 
 
 def _gen_detrend(rng, cases, count):
@@ -224,7 +259,8 @@ def _gen_detrend(rng, cases, count):
             at += ln
         # update(update_params=True) refits with self.fh: a horizon must have been seen (C10)
         pre = any(u["params"] for u in ups) or rng.random() < 0.3
-        cases.append(_common(rng, "detrend", {"degree": deg}, y, off, z, ups, pre=pre))
+        c = _common(rng, "detrend", {"degree": deg}, y, off, z, ups, pre=pre)
+        cases.append(_with_gaps(rng, c, sp) if rng.random() < 0.3 else c)
 
 
 def _adaptor_cfg(rng):
@@ -248,7 +284,8 @@ def _gen_pointwise(rng, cases, kind, count):
                    "bounds": rng.choice([None, None, [0, 2], [-1, 1]])}
         else:
             cfg = {}
-        cases.append(_common(rng, kind, cfg, y, off, z))
+        c = _common(rng, kind, cfg, y, off, z)
+        cases.append(_with_gaps(rng, c, 3) if rng.random() < 0.25 else c)
 
 
 def _gen_optional(rng, cases, count):
@@ -269,8 +306,8 @@ def _gen_optional(rng, cases, count):
             inner = {"kind": ik, "cfg": (_adaptor_cfg(rng) if ik == "adaptor" else
                                          {"degree": rng.choice([0, 1, 2])} if ik == "detrend"
                                          else {})}
-        cases.append(_common(rng, "optional", {"passthrough": passthrough, "inner": inner}, y,
-                             off, z))
+        c = _common(rng, "optional", {"passthrough": passthrough, "inner": inner}, y, off, z)
+        cases.append(_with_gaps(rng, c, inner["cfg"].get("sp", 3)) if rng.random() < 0.3 else c)
 
 
 def _gen_positional(rng, cases, counts):
@@ -343,10 +380,27 @@ PERIOD_BASE = 360          # 2000-01
 DAY_BASE = "2000-01-01"
 
 
-def _series(vals, start, idx):
+def _case_times(case, k=0):
+    """time points of the transformed stretch (every index shifted by k)"""
+    start = case["t0"] + k + case["off"]
+    rel = case.get("rel")
+    return [start + r for r in (rel if rel else range(len(case["z"])))]
+
+
+def _series(vals, start, idx, rel=None):
     import numpy as np
     import pandas as pd
     v = np.array([np.nan if x is None else x for x in vals], dtype=float)
+    if rel:                    # explicit, gapped time points start + rel[i]
+        ts = [start + r for r in rel]
+        if idx == "period":
+            index = pd.PeriodIndex([pd.Period(ordinal=PERIOD_BASE + t, freq="M") for t in ts],
+                                   freq="M")
+        elif idx == "datetime":
+            index = pd.DatetimeIndex([pd.Timestamp(DAY_BASE) + pd.Timedelta(days=t) for t in ts])
+        else:
+            index = pd.Index(np.array(ts, dtype="int64"))
+        return pd.Series(v, index=index)
     if idx == "range":
         index = pd.RangeIndex(start, start + len(v))
     elif idx == "period":      # time t <-> the month with ordinal PERIOD_BASE + t
@@ -512,7 +566,7 @@ def _scenario(case, k):
         t.transform(y)
     for u in case["ups"]:
         t.update(_series(u["vals"], t0 + u["at"], idx), update_params=u["params"])
-    z = _series(case["z"], t0 + case["off"], idx)
+    z = _series(case["z"], t0 + case["off"], idx, case.get("rel"))
     zt = t.transform(z)
     r = {"zt": _canon(zt), "zi": None, "fitted": _fitted(kind, cfg, t)}
     if kind in INVERTIBLE:
@@ -599,7 +653,7 @@ def _check_run(case, r, k):
     kind, cfg = case["kind"], case["cfg"]
     t0 = case["t0"] + k
     z = case["z"]
-    times = [t0 + case["off"] + i for i in range(len(z))]
+    times = _case_times(case, k)
     zt_idx, zt = r["zt"][0], [_f(v) for v in r["zt"][1]]
     if kind in LAGGED:
         if zt_idx != list(range(len(zt))):
@@ -703,22 +757,37 @@ def shrink(case):
         yield d
     zmin = {"hampel": c["cfg"].get("window_length", 0) + 2, "imputer": 3, "acf": 12,
             "pacf": 12, "train": 10 ** 9}.get(c["kind"], 1)
+    rel = c.get("rel")
+    if rel and len(c["z"]) <= 2:
+        zmin = 10 ** 9                    # a gapped stretch needs two observations
     if len(c["z"]) > zmin and any(v is not None for v in c["z"][:-1]):
         d = dict(c)
         d["z"] = c["z"][:-1]
+        if rel:
+            d["rel"] = rel[:-1]
         yield d
         if c["kind"] in INVERTIBLE:
             d = dict(c)
             d["z"] = c["z"][1:]
-            d["off"] = c["off"] + 1
+            d["off"] = c["off"] + (rel[1] if rel else 1)
+            if rel:
+                d["rel"] = [r - rel[1] for r in rel[1:]]
             yield d
+    if rel:
+        d = dict(c)                       # the same observations on a contiguous index
+        d["rel"] = None
+        yield d
     if c["t0"] != 0:
         d = dict(c)
         d["t0"] = 0
         yield d
-    if c["idx"] != "range":
+    if c["idx"] != "range" and not rel:
         d = dict(c)
         d["idx"] = "range"
+        yield d
+    if c["idx"] not in ("range", "int") and rel:
+        d = dict(c)
+        d["idx"] = "int"
         yield d
     sp = c["cfg"].get("sp")
     if sp and c["kind"] in ("deseason", "cond") and abs(c["off"]) >= sp and not c["ups"]:
@@ -737,8 +806,9 @@ Open Scope Z_scope.
 """
 
 
-def _cser(start, vals):
-    return "(%s, %s)" % (cz(start), clist([cq(v) for v in vals]))
+def _cser(times, vals):
+    """a model series: the list of (time point, value) observations"""
+    return "(combine %s %s)" % (czlist(times), clist([cq(v) for v in vals]))
 
 
 def _ciser(o):
@@ -787,16 +857,16 @@ def coq_case(case, out):
         return "CTrain %s %s %s %s %s %s" % (
             cz(cfg["sp"]), "Additive" if cfg["model"] == "additive" else "Multiplicative",
             clist([cq(v) for v in r["full"]]), clist([cq(v) for v in r["fitted"]["seasonal"]]),
-            _cser(case["t0"] + k, case["y"]), _ciser(r["zt"]))
+            _cser([case["t0"] + k + i for i in range(len(case["y"]))], case["y"]), _ciser(r["zt"]))
     t0 = case["t0"] + k
-    z = _cser(t0 + case["off"], case["z"])
+    z = _cser(_case_times(case, k), case["z"])
     ups = [t0 + u["at"] for u in case["ups"]]
     return _inner_case(kind, case["cfg"], r["fitted"], t0, ups, z, _ciser(r["zt"]), _ciser(r["zi"]))
 
 
 def coq_model_term(case):
     t0 = case["t0"]
-    z = _cser(t0 + case["off"], case["z"])
+    z = _cser(_case_times(case), case["z"])
     sp = case["cfg"].get("sp") or (case["cfg"].get("inner", {}).get("cfg", {}).get("sp"))
     if sp:
         return "(sindex %s, map (fun t => phase %s %s t) (sindex %s))" % (z, cz(t0), cz(sp), z)
@@ -820,6 +890,8 @@ def distribution(cases, results):
                 d["deseason:stretch-before-training"] += 1
             if c["off"] >= len(c["y"]):
                 d["deseason:stretch-after-training"] += 1
+        if c.get("rel"):
+            d["gapped-stretch:%s" % c["kind"]] += 1
         if c["kind"] == "detrend":
             d["detrend:updates=%d" % len(c["ups"])] += 1
         d["shift:%s" % ("none" if c["k"] == 0 else "to-zero-base" if c["k"] == -c["t0"]
